@@ -502,12 +502,15 @@ def run_argv_limits():
     n = 0
     bad = None
     for to in (None, 0.05, 0.5, 0.999, 1.0, 2.5, 100.0):
-        for toc in (None, 0.25, 3.0):
+        for toc in (None, 0.25, 3.0, 'cc-without-limit'):
             for mem in (None, 1, 512):
                 argv = []
                 if to is not None:
                     argv += ['--timeout', str(to)]
-                if toc is not None:
+                if toc == 'cc-without-limit':
+                    argv += ['-c', 'ref']
+                    toc = None
+                elif toc is not None:
                     argv += ['-c', 'ref', '--timeout-cc', str(toc)]
                 if mem is not None:
                     argv += ['--memout', str(mem)]
@@ -525,6 +528,65 @@ def run_argv_limits():
             'paths': n, 'paths_ok': n, 'samples': [], 'solver_checks': 0,
             'solver_seconds': 0.0, 'wall_s': round(time.time() - t0, 2),
             'note': 'concrete enumeration (auxiliary)'}
+
+
+def run_limits_history():
+    """Auxiliary (concrete): the limits of every run are those of *that*
+    run - first the golden run without a time limit (the automatic limit is
+    not known yet), then candidates with the derived limit; then another
+    limit and another --memout."""
+    import time
+    from ddsmt import checker
+    t0 = time.time()
+    limits = []
+
+    class FakeResource:
+        RLIMIT_AS = 9
+        RLIMIT_CPU = 0
+        RLIM_INFINITY = -1
+
+        @staticmethod
+        def prlimit(pid, res, lim):
+            limits.append((pid, res, lim))
+
+        @staticmethod
+        def setrlimit(res, lim):
+            limits.append((None, res, lim))
+
+    saved = checker.resource
+    checker.resource = FakeResource
+    bad = None
+    n = 0
+    try:
+        seq = [(None, None, 77), (2.5, None, 78), (2.5, None, None),
+               (0.4, 100, 79), (7.0, None, 80), (None, 3, 81)]
+        for timeout, memout, pid in seq:
+            n += 1
+            _set_args(memout=memout)
+            del limits[:]
+            checker.limit_resources(timeout, pid)
+            cpu = [l for l in limits if l[1] == 0]
+            mem = [l for l in limits if l[1] == 9]
+            want_cpu = [] if not timeout else [
+                (pid, 0, (-(-timeout // 1), -(-timeout // 1)))]
+            want_mem = [] if not memout else [
+                (pid, 9, (memout * 1024 * 1024, -1))]
+            if [(p, r, tuple(l)) for p, r, l in cpu] != \
+                    [(p, r, (int(a), int(b))) for p, r, (a, b) in want_cpu] \
+                    or [(p, r, tuple(l)) for p, r, l in mem] != want_mem:
+                if bad is None:
+                    bad = ({'call': n},
+                           f'call {n} of limit_resources(timeout={timeout}, '
+                           f'pid={pid}) with --memout {memout} applied '
+                           f'{limits!r}')
+    finally:
+        checker.resource = saved
+    return {'status': 'VIOLATED' if bad else 'CONFIRMED',
+            'cex': bad[0] if bad else None,
+            'exc': {'type': 'Violation', 'msg': bad[1]} if bad else None,
+            'paths': n, 'paths_ok': n, 'samples': [], 'solver_checks': 0,
+            'solver_seconds': 0.0, 'wall_s': round(time.time() - t0, 2),
+            'note': 'concrete sequence of calls (auxiliary)'}
 
 
 def partitions(tier):
@@ -550,6 +612,8 @@ def partitions(tier):
                   'bounds': {'max_str_len': m}})
     parts.append({'name': 'argvlimits', 'kind': 'native',
                   'run': run_argv_limits, 'budget_s': 100})
+    parts.append({'name': 'limitshistory', 'kind': 'native',
+                  'run': run_limits_history, 'budget_s': 100})
     return parts
 
 
@@ -577,6 +641,9 @@ def replay(part, cex):
             return _golden_body(cex)
         if part == 'status':
             return _status_body(cex)
+        if part == 'limitshistory':
+            r = run_limits_history()
+            return r['exc']['msg'] if r['exc'] else None
         if part == 'argvlimits':
             r = run_argv_limits()
             return r['exc']['msg'] if r['exc'] else None
